@@ -498,17 +498,7 @@ func (b *c06Bat) tableStages(ti int) {
 	})
 
 	st = "table-cell-edit"
-	on(st, "SetCellText", true, func(d *document.Document, t *document.Table) {
-		for _, p := range cells(t) {
-			_ = t.SetCellText(p[0], p[1], "set {{v}}")
-		}
-	})
-	on(st, "SetCellFormat", true, func(d *document.Document, t *document.Table) {
-		cf := &document.CellFormat{TextFormat: tf, HorizontalAlign: document.CellAlignCenter, VerticalAlign: document.CellVAlignCenter, TextDirection: document.TextDirectionTB, BackgroundColor: "EEEEEE", BorderStyle: "single", Padding: 3}
-		for _, p := range cells(t) {
-			_ = t.SetCellFormat(p[0], p[1], cf)
-		}
-	})
+	// first call of the stage: the cells are still as the input left them (possibly without any paragraph)
 	on(st, "SetCellFormat(partial configurations)", true, func(d *document.Document, t *document.Table) {
 		// one field group at a time: each group takes its own path through the setter
 		for _, cf := range []*document.CellFormat{
@@ -524,6 +514,20 @@ func (b *c06Bat) tableStages(ti int) {
 			for _, p := range cells(t) {
 				_ = t.SetCellFormat(p[0], p[1], cf)
 			}
+		}
+	})
+	if !b.fresh {
+		b.reopen()
+	}
+	on(st, "SetCellText", true, func(d *document.Document, t *document.Table) {
+		for _, p := range cells(t) {
+			_ = t.SetCellText(p[0], p[1], "set {{v}}")
+		}
+	})
+	on(st, "SetCellFormat", true, func(d *document.Document, t *document.Table) {
+		cf := &document.CellFormat{TextFormat: tf, HorizontalAlign: document.CellAlignCenter, VerticalAlign: document.CellVAlignCenter, TextDirection: document.TextDirectionTB, BackgroundColor: "EEEEEE", BorderStyle: "single", Padding: 3}
+		for _, p := range cells(t) {
+			_ = t.SetCellFormat(p[0], p[1], cf)
 		}
 	})
 	on(st, "SetCellFormattedText", true, func(d *document.Document, t *document.Table) {
